@@ -311,7 +311,7 @@ int cs_make_params(vnacal_t *vcp, cs_scenario *sc)
 	    cs_c scale = p->kind == CSP_UNKNOWN ? p->guess_scale : 1.0;
 	    int h;
 	    if (n > 32) n = 32;
-	    if (cs_vector_on_cal && p->kind == CSP_VECTOR) {
+	    if (cs_vector_on_cal == 1 && p->kind == CSP_VECTOR) {
 		/* a grid that has the first calibration frequency as an
 		   interior point and the others between its points */
 		n = 0;
@@ -322,6 +322,14 @@ int cs_make_params(vnacal_t *vcp, cs_scenario *sc)
 		fv[n++] = 1.1 * fmax;
 		fv[n++] = 1.3 * fmax;
 		fv[n++] = 1.6 * fmax;
+	    }
+	    if (cs_vector_on_cal == 2 && p->kind == CSP_VECTOR) {
+		/* as many points as the calibration has and the same two
+		   ends, the points between off the calibration's */
+		n = v->nf;
+		for (int i = 0; i < n; ++i)
+		    fv[i] = i == 0 || i == n - 1 ? v->f[i] :
+			v->f[i] - 0.35 * (v->f[i] - v->f[i - 1]);
 	    }
 	    for (int i = 0; i < n; ++i) {
 		if (!(cs_vector_on_cal && p->kind == CSP_VECTOR))
